@@ -35,8 +35,8 @@ LEVEL_NOTE = "Trusted: the harness's gauge map and observable comparison; numpy.
 
 def budget(tier):
     if tier == "quick":
-        return dict(max_examples=260, workers=6, time_s=170, min_cases=80)
-    return dict(max_examples=9000, workers=16, time_s=1200, min_cases=160)
+        return dict(max_examples=450, workers=8, time_s=170, min_cases=120)
+    return dict(max_examples=9000, workers=16, time_s=1200, min_cases=240)
 
 
 @st.composite
